@@ -194,7 +194,7 @@ def s07_step_once(ctx, only_types=None, rule_id='S07'):
                     continue
             if not fields:
                 continue
-            b = m.body(m.impl_fn_path(i, 'next'))
+            b = m.body_inlined(m.impl_fn_path(i, 'next'))
             if b is None:
                 raise Broken('no body for %s::next' % short)
             nfn += 1
